@@ -116,8 +116,21 @@ SIS_MOVES = {(0, 1), (1, 0)}
 # C05
 # ------------------------------------------------------------------------------------------
 
-def c05_arrays(arrs, N, tmin, I0, R0, sir):
+def c05_arrays(arrs, N, tmin, I0, R0, sir, G=None):
+    """G given: additionally the count-level consequence of "initially recovered nodes are never infected":
+    the number of nodes ever infected is bounded by what the seeds can reach without passing through R0."""
     bad = []
+    if G is not None and len(arrs) >= 2 and len(arrs[1]):
+        blocked = set(R0)
+        seen = set(v for v in I0 if v not in blocked); todo = list(seen)
+        while todo:
+            u = todo.pop()
+            for w in G.neighbors(u):
+                if w not in seen and w not in blocked:
+                    seen.add(w); todo.append(w)
+        smin = float(np.min(np.asarray(arrs[1])))
+        if smin < N - len(blocked) - len(seen):
+            bad.append(("too_many_infections", "S falls to %r: more nodes get infected than the %d the seeds can reach without the initially recovered nodes %r" % (smin, len(seen), sorted(blocked, key=repr))))
     want = [tmin, N - len(I0) - len(R0), len(I0)] + ([len(R0)] if sir else [])
     got = [np.asarray(a)[0] if len(a) else None for a in arrs]
     if len(got) != len(want) or any(g is None or g != w for g, w in zip(got, want)):
